@@ -163,7 +163,7 @@ def run_one(seed, preset=None, tier="quick", want_case=False):
         else:
             obj, fd = plan.default_sites[path]
             try:
-                if isinstance(obj, dict):
+                if isinstance(obj, dict) and not (fd.impl == "attr" and fd.name in getattr(obj, "__dict__", {})):
                     obj[fd.name] = val
                 elif fd.impl == "attr":
                     obj.__dict__[fd.name] = val
@@ -203,7 +203,10 @@ def run_one(seed, preset=None, tier="quick", want_case=False):
         elif p2 in plan.default_sites:
             obj2, fd2 = plan.default_sites[p2]
             try:
-                final = obj2[fd2.name] if isinstance(obj2, dict) else (obj2.__dict__[fd2.name] if fd2.impl == "attr" else obj2._keys[fd2.name])
+                if isinstance(obj2, dict) and not (fd2.impl == "attr" and fd2.name in getattr(obj2, "__dict__", {})):
+                    final = obj2[fd2.name]
+                else:
+                    final = obj2.__dict__[fd2.name] if fd2.impl == "attr" else obj2._keys[fd2.name]
                 tainted[p2] = (tainted[p2][0], final)
             except Exception:  # noqa: BLE001
                 pass
